@@ -77,8 +77,11 @@ def utility_sets(inst, K: int, level: str = "small") -> List[List[dict]]:
         [u("HPnear", "Hot", T[-1] + dstep / 4, T[-1] + dstep / 4, dt=dstep / 2), u("CW", "Cold", bot, bot)],
         # exactly reaching: shifted range ends on the extreme process temperature
         [u("HPexact", "Hot", T[-1] + dstep + 0.1, T[-1] + dstep + 0.1, dt=dstep / 2), u("CWexact", "Cold", T[0] - dstep - 0.1, T[0] - dstep - 0.1, dt=dstep / 2)],
+        # one header used as hot utility whose level lies within 1 K of TWO generation (cold) levels with different contributions
+        [u("HP", "Hot", top, top), u("LPS", "Both", mid_hi, mid_hi, dt=dstep / 2), u("LPgen", "Cold", mid_hi - 0.5, mid_hi - 0.5, dt=0.0),
+         u("CW", "Cold", bot, bot)],
     ]
     if level == "large":
-        return sets + large + edge       # indices 0-3 small, 4-7 large, 8-10 edge
-    return sets + edge                   # indices 0-3 small, 4-6 edge
+        return sets + large + edge       # indices 0-3 small, 4-7 large, 8-11 edge
+    return sets + edge                   # indices 0-3 small, 4-7 edge
 
